@@ -18,6 +18,7 @@ import AioftpModel.Lemmas.ClientSpec
 import AioftpModel.Lemmas.ClientFuel
 import AioftpModel.Lemmas.ClientFuelBfs
 import AioftpModel.Lemmas.ClientFuelUpload
+import AioftpModel.Lemmas.ListingErr
 
 namespace C09
 open Model Model.ClientTree Model.Fs Py
@@ -484,5 +485,29 @@ example : ∃ r', removeTop exRemote ⟨0, [n "t"]⟩ = .ok r' ∧ lookup r'.fs 
   obtain ⟨r', hr'⟩ := exists_of_isOk (x := removeTop exRemote ⟨0, [n "t"]⟩) (by decide)
   obtain ⟨_, hq⟩ := remove_spec exRemote r' ⟨0, [n "t"]⟩ exRemote_ok.rinv (safeP_of_check (by decide)) (by decide) hr'
   refine ⟨r', hr', ?_, ?_, ?_⟩ <;> (rw [hq]; decide)
+
+/-! ### listings of servers that name the listed directory and its parent -/
+
+/-- **dot_entries_do_not_change_a_listing.**  Other servers put entries for the listed directory and its parent into a
+    listing (`type=cdir; .` and `type=pdir; ..` in MLSD, the first two lines of `ls -la`).  Whatever lines parse to the
+    names `.` or `..`, wherever they stand (`pre`, `mid`) and however many, what `Client.list` yields is what it yields
+    for the listing without them - so a recursive listing neither repeats a directory nor descends into it again. -/
+theorem dot_entries_do_not_change_a_listing {α : Type} (parse : α → Except Py.PyErr Model.ListingParse.ListEntry) (path : PPath)
+    (pre mid rest : List α)
+    (hd : ∀ l ∈ pre ++ mid, ∃ name info, parse l = .ok (name, info) ∧ (name.str = ['.'] ∨ name.str = Model.dotdot)) :
+    Model.ListingParse.listLines parse path (pre ++ (mid ++ rest)) = Model.ListingParse.listLines parse path rest := by
+  have skip : ∀ (ds : List α), (∀ l ∈ ds, ∃ name info, parse l = .ok (name, info) ∧ (name.str = ['.'] ∨ name.str = Model.dotdot)) →
+      ∀ tl, Model.ListingParse.listLines parse path (ds ++ tl) = Model.ListingParse.listLines parse path tl := by
+    intro ds
+    induction ds with
+    | nil => intro _ tl; rfl
+    | cons d ds ih =>
+      intro h tl
+      obtain ⟨name, info, hp, hn⟩ := h d (by simp)
+      have := Model.ListingParse.listStep_dot (parse := parse) (path := path) d name info hp hn
+      simp only [List.cons_append, Model.ListingParse.listLines, this, bind, Except.bind]
+      rw [ih (fun l hl => h l (List.mem_cons_of_mem _ hl)) tl]
+      cases Model.ListingParse.listLines parse path tl <;> rfl
+  rw [skip pre (fun l hl => hd l (List.mem_append_left _ hl)), skip mid (fun l hl => hd l (List.mem_append_right _ hl))]
 
 end C09
